@@ -228,6 +228,13 @@ impl<'a, 'tcx> Cx<'a, 'tcx> {
                 o.put("unevaluated", J::s(&defpath(self.tcx, uv.def)));
             }
         }
+        // arrays of small scalars (tables of error codes kept in a named `const`): the element values
+        if let ty::Array(elem, _) = ty.kind() {
+            let typing_env = TypingEnv::post_analysis(self.tcx, self.owner);
+            if let Some(vals) = self.array_elems(c, *elem, typing_env) {
+                o.put("elems", J::Arr(vals.into_iter().map(J::n).collect()));
+            }
+        }
         // string literals
         if let Const::Val(cv @ ConstValue::Slice { .. }, t) = c.const_ {
             if let ty::Ref(_, inner, _) = t.kind() {
@@ -239,6 +246,49 @@ impl<'a, 'tcx> Cx<'a, 'tcx> {
             }
         }
         o
+    }
+
+    fn array_elems(&self, c: &mir::ConstOperand<'tcx>, elem: Ty<'tcx>, typing_env: TypingEnv<'tcx>) -> Option<Vec<i128>> {
+        let tcx = self.tcx;
+        let layout = tcx.layout_of(typing_env.as_query_input(elem)).ok()?;
+        let esz = layout.size.bytes() as usize;
+        if !(esz == 1 || esz == 2 || esz == 4 || esz == 8) {
+            return None;
+        }
+        let scalar_like = elem.is_integral() || matches!(elem.kind(), ty::Adt(..));
+        if !scalar_like {
+            return None;
+        }
+        let cv = c.const_.eval(tcx, typing_env, c.span).ok()?;
+        if let ConstValue::Indirect { alloc_id, offset } = cv {
+            let alloc = tcx.global_alloc(alloc_id).unwrap_memory();
+            let inner = alloc.inner();
+            let total = inner.len();
+            let start = offset.bytes() as usize;
+            if start > total {
+                return None;
+            }
+            let bytes = inner.inspect_with_uninit_and_ptr_outside_interpreter(start..total);
+            let n = bytes.len() / esz;
+            if n > 64 {
+                return None;
+            }
+            let mut out = Vec::new();
+            for i in 0..n {
+                let mut v: u128 = 0;
+                for k in 0..esz {
+                    v |= (bytes[i * esz + k] as u128) << (8 * k);
+                }
+                let mut sv = v as i128;
+                if elem.is_signed() {
+                    let shift = 128 - 8 * esz as u32;
+                    sv = ((v << shift) as i128) >> shift;
+                }
+                out.push(sv);
+            }
+            return Some(out);
+        }
+        None
     }
 
     fn operand(&self, op: &Operand<'tcx>) -> J {
